@@ -6,6 +6,7 @@ import (
 	"go/types"
 	"sort"
 	"strings"
+	"unicode/utf8"
 
 	"golang.org/x/tools/go/callgraph"
 	"golang.org/x/tools/go/ssa"
@@ -642,6 +643,9 @@ func (r *Report) ArgLacks(key, fnKey, callee string, idx int, atoms ...string) {
 
 func clip(s string, n int) string {
 	if len(s) > n {
+		for n > 0 && !utf8.RuneStart(s[n]) { // never cut inside a multi-byte rune (log strings carry emoji)
+			n--
+		}
 		return s[:n] + "…"
 	}
 	return s
